@@ -61,6 +61,13 @@ def recipe(c: Check):
                 c.broken.append(dict(kind="coverage", name="driver xtcp never reached event %s" % k, detail=str(cnt5)))
         if st5.get("distribution", {}).get("requests_for_closed_proxy", 0) <= 0:
             c.broken.append(dict(kind="coverage", name="driver xtcp sent no request for a closed proxy", detail=""))
+    # the real transport.NewMessageTransporter: Send never drops (differential) + both parties answered despite a backlog
+    st6 = c.run_driver("backlog", q(c.tier, 60, 400), shards=1)
+    cnt6 = c.cov.get("coq_counters", {}).get("backlog", {})
+    if st6 is not None and cnt6:
+        for k in ("NTRENQUEUED", "NTRCLOSED", "NTRPARKED", "NTRUNPARKED", "NTRRELEASED"):
+            if cnt6.get(k, 0) <= 0:
+                c.broken.append(dict(kind="coverage", name="driver backlog never observed %s" % k, detail=str(cnt6)))
     # OBSERVATION (runtime residue): real MakeHole for both roles over loopback UDP, instructions from the real Controller
     st3 = c.run_driver("rendezvous", 1, coq=False, timeout=q(c.tier, 120, 600))
     if st3 is not None:
@@ -109,6 +116,11 @@ def recipe(c: Check):
              "it / followed by an immediate re-registration of the name; after Close has returned a pre-check and a correctly signed "
              "request for the closed proxy; events EvListen/EvProxyClose/EvDeliver/EvHandoverDone/EvLoopExit and observations of the "
              "session table, inboxes and registered names replayed through the model. "
+             "backlog driver: random histories of Send / drain / end-of-dispatcher on the real transport.NewMessageTransporter over "
+             "queues of capacity 1-3, every observation (returned nil / dispatcher-ended error / still parked / released by a drain or "
+             "by done) replayed through Model.NatHoleTr.tr_step; plus six sessions on a real Controller whose controls use real "
+             "transporters over queues of 100 that are full of other traffic with a late writer: both NatHoleResp and the error reply "
+             "of a refused request must arrive. "
              "sleepdelete driver (background, real time): an error-pair session and a mode-0 session are watched through the 30 s / 35 s "
              "post-response sleep until the table is empty (EvSleepDone). rendezvous driver = OBSERVATION, not proof: three "
              "address pairs walk the real Controller through all 28 rows of the five tables; real nathole.MakeHole runs for both "
